@@ -46,28 +46,38 @@ def write_replay(prop, rep):
 
 
 def run_shards(prop, shards, seed):
-    """Run shards in a pool of NPROC processes; returns list of result dicts (same order)."""
+    """Run shards in a pool of NPROC worker processes (each takes batches of shards, so that the interpreter and
+    CrossHair start-up cost is paid once per batch); returns list of result dicts (same order)."""
     tmp = tempfile.mkdtemp(prefix='sx_', dir=EVID)
-    results = [None] * len(shards)
-    pending = list(range(len(shards)))
+    n = len(shards)
+    results = [None] * n
+    # longest budgets first, then small batches handed out dynamically
+    order = sorted(range(n), key=lambda i: -shards[i]['budget_s'])
+    bsize = max(1, min(8, n // (NPROC * 3)))
+    batches = [order[i:i + bsize] for i in range(0, n, bsize)]
     running = {}
+    bi = 0
+
+    def empty(sp, msg):
+        return dict(shard=sp['name'], harness_error=msg, paths=0, confirmed=0, nontrivial=0, unknown=0, ignored=0,
+                    known_hits={}, known_first={}, violation=None, samples=[], unknown_kinds={}, wall=0, exhausted=False,
+                    solver=dict(queries=0, sat=0, unsat=0, unknown=0, solver_s=0.0), labels={}, cover={})
     try:
-        while pending or running:
-            while pending and len(running) < NPROC:
-                i = pending.pop(0)
-                sp = dict(shards[i], property=prop, seed=seed)
-                specp = os.path.join(tmp, 's%d.json' % i)
-                outp = os.path.join(tmp, 'o%d.json' % i)
-                json.dump(sp, open(specp, 'w'))
-                errf = open(os.path.join(tmp, 'e%d.txt' % i), 'w')
-                proc = subprocess.Popen([PY, '-m', 'sx.shard', specp, outp], cwd=HERE, env=ENV,
-                                        stdout=errf, stderr=subprocess.STDOUT)
-                running[i] = (proc, time.monotonic(), outp, errf, sp)
+        while bi < len(batches) or running:
+            while bi < len(batches) and len(running) < NPROC:
+                idxs = batches[bi]
+                specs = [dict(shards[i], property=prop, seed=seed, out=os.path.join(tmp, 'o%d.json' % i)) for i in idxs]
+                specp = os.path.join(tmp, 'b%d.json' % bi)
+                json.dump(specs, open(specp, 'w'))
+                errf = open(os.path.join(tmp, 'e%d.txt' % bi), 'w')
+                proc = subprocess.Popen([PY, '-m', 'sx.shard', specp], cwd=HERE, env=ENV, stdout=errf, stderr=subprocess.STDOUT)
+                hard = sum(sp['budget_s'] + 4 * sp.get('path_timeout', 10.0) for sp in specs) + 60
+                running[bi] = (proc, time.monotonic(), errf, idxs, hard)
+                bi += 1
             time.sleep(0.05)
-            for i in list(running):
-                proc, t0, outp, errf, sp = running[i]
+            for b in list(running):
+                proc, t0, errf, idxs, hard = running[b]
                 rc = proc.poll()
-                hard = sp['budget_s'] + 4 * sp.get('path_timeout', 10.0) + 60
                 if rc is None and time.monotonic() - t0 > hard:
                     proc.kill()
                     proc.wait()
@@ -75,19 +85,17 @@ def run_shards(prop, shards, seed):
                 if rc is None:
                     continue
                 errf.close()
-                del running[i]
-                if os.path.exists(outp):
-                    results[i] = json.load(open(outp))
-                else:
-                    err = open(errf.name).read()[-2000:]
-                    results[i] = dict(shard=sp['name'], harness_error='shard process failed rc=%s: %s' % (rc, err),
-                                      paths=0, confirmed=0, nontrivial=0, unknown=0, ignored=0, known_hits={},
-                                      known_first={}, violation=None, samples=[], unknown_kinds={}, wall=0,
-                                      exhausted=False, solver=dict(queries=0, sat=0, unsat=0, unknown=0, solver_s=0.0),
-                                      labels={}, cover={})
+                del running[b]
+                for i in idxs:
+                    outp = os.path.join(tmp, 'o%d.json' % i)
+                    if os.path.exists(outp):
+                        results[i] = json.load(open(outp))
+                    else:
+                        err = open(errf.name).read()[-1500:]
+                        results[i] = empty(shards[i], 'shard process failed rc=%s: %s' % (rc, err))
     finally:
-        for i in running:
-            running[i][0].kill()
+        for b in running:
+            running[b][0].kill()
         shutil.rmtree(tmp, ignore_errors=True)
     return results
 
@@ -185,8 +193,12 @@ def cmd_run(prop, tier):
             st = row['status']
             if st == 'violation':
                 rep = row['replay']
-                p = write_replay(prop, rep)
-                reported.append(dict(label=row['label'], replay=p, shard=row['name'], args=rep.get('args'), info=row.get('info')))
+                rr = plain_replay(rep)
+                if rr.get('outcome') == 'check_failed' and rr.get('label') == row['label']:
+                    p = write_replay(prop, rep)
+                    reported.append(dict(label=row['label'], replay=p, shard=row['name'], args=rep.get('args'), info=row.get('info')))
+                else:
+                    harness_errors.append('solver witness of %s does not replay on the real code: %s' % (row['name'], rr))
             elif st == 'known':
                 known_lines.setdefault(row['known_id'], kf_by_id.get(row['known_id'], {}).get('what', row.get('what', '')))
             elif st == 'error':
@@ -207,7 +219,8 @@ def cmd_run(prop, tier):
             harness_errors.append('witness sample of %s.%s does not replay to completion: %s' % (key[0], key[1], rr))
         functions.update(rr.get('functions', []))
     fnkeys = {(sp['module'], sp['fn']) for sp in shards}
-    for key in fnkeys - set(witnessed):
+    viol_keys = {(sp['module'], sp['fn']) for sp, v in violations}
+    for key in fnkeys - set(witnessed) - viol_keys:
         harness_errors.append('vacuous: no confirmed path evaluating a label in %s.%s' % key)
 
     # --- reach check
@@ -238,7 +251,7 @@ def cmd_run(prop, tier):
     elif harness_errors:
         exit_code = 3
 
-    exhaustive = all(r['exhausted'] for r in results) and not harness_errors
+    exhaustive = all(r['exhausted'] for r in results) and not harness_errors and agg['unknown'] == 0
     wall = round(time.monotonic() - t0, 2)
     bounds = mod.bounds(tier) if hasattr(mod, 'bounds') else {}
     ev = dict(
